@@ -190,7 +190,8 @@ fn run_b<'a>(p: &BPb<'a>, s: &'a [u8]) -> Result<Option<usize>, String> {
 }
 
 // ('٣' U+0663, 'Ł' U+0141, 'Ċ' U+010A: multi-byte characters whose low byte is an ASCII letter / LF)
-pub const ALPHABET: &str = "019afgZ_ \t\r\n\x0B\x0Cé٣-\u{85}\u{2028}ŁĊ";
+// U+00A0 / U+3000: White_Space characters that are neither inline whitespace nor line terminators
+pub const ALPHABET: &str = "019afgZ_ \t\r\n\x0B\x0Cé٣-\u{85}\u{2028}\u{2029}\u{A0}\u{3000}ŁĊ";
 
 pub struct TextUnit {
     pub name: String,
